@@ -319,6 +319,7 @@ func runMethod(o *Out, spec *Spec, r *Ref, m *MethodSpec) {
 		srcAddrs := Addrs(src)
 		args := make([]reflect.Value, ft.NumIn())
 		r.Ctx = map[reflect.Type]reflect.Value{}
+		WalkCtx = r.Ctx
 		for a := 0; a < ft.NumIn(); a++ {
 			if a == srcIdx {
 				args[a] = src
@@ -615,6 +616,7 @@ func runFaults(spec *Spec, r *Ref, m *MethodSpec, fn reflect.Value, S, T reflect
 		srcStr := Format(src)
 		args := make([]reflect.Value, ft.NumIn())
 		r.Ctx = map[reflect.Type]reflect.Value{}
+		WalkCtx = r.Ctx
 		for a := 0; a < ft.NumIn(); a++ {
 			if a == srcIdx {
 				args[a] = src
